@@ -244,9 +244,9 @@ Proof/C06Leaves.vos Proof/C06Leaves.vok Proof/C06Leaves.required_vos: Proof/C06L
 Proof/C06Setwise.vo Proof/C06Setwise.glob Proof/C06Setwise.v.beautified Proof/C06Setwise.required_vo: Proof/C06Setwise.v Lib/Base.vo Lib/Sort.vo Model/Matchers.vo Spec/C06.vo
 Proof/C06Setwise.vio: Proof/C06Setwise.v Lib/Base.vio Lib/Sort.vio Model/Matchers.vio Spec/C06.vio
 Proof/C06Setwise.vos Proof/C06Setwise.vok Proof/C06Setwise.required_vos: Proof/C06Setwise.v Lib/Base.vos Lib/Sort.vos Model/Matchers.vos Spec/C06.vos
-Proof/C07.vo Proof/C07.glob Proof/C07.v.beautified Proof/C07.required_vo: Proof/C07.v Lib/Base.vo Spec/C07.vo Corr/C07.vo
-Proof/C07.vio: Proof/C07.v Lib/Base.vio Spec/C07.vio Corr/C07.vio
-Proof/C07.vos Proof/C07.vok Proof/C07.required_vos: Proof/C07.v Lib/Base.vos Spec/C07.vos Corr/C07.vos
+Proof/C07.vo Proof/C07.glob Proof/C07.v.beautified Proof/C07.required_vo: Proof/C07.v Lib/Base.vo Lib/Sort.vo Model/TextRepr.vo Model/Assertions.vo Spec/C07.vo Corr/C07.vo Proof/C07Repr.vo Proof/C07Names.vo
+Proof/C07.vio: Proof/C07.v Lib/Base.vio Lib/Sort.vio Model/TextRepr.vio Model/Assertions.vio Spec/C07.vio Corr/C07.vio Proof/C07Repr.vio Proof/C07Names.vio
+Proof/C07.vos Proof/C07.vok Proof/C07.required_vos: Proof/C07.v Lib/Base.vos Lib/Sort.vos Model/TextRepr.vos Model/Assertions.vos Spec/C07.vos Corr/C07.vos Proof/C07Repr.vos Proof/C07Names.vos
 Proof/C07Names.vo Proof/C07Names.glob Proof/C07Names.v.beautified Proof/C07Names.required_vo: Proof/C07Names.v Lib/Base.vo Model/Assertions.vo
 Proof/C07Names.vio: Proof/C07Names.v Lib/Base.vio Model/Assertions.vio
 Proof/C07Names.vos Proof/C07Names.vok Proof/C07Names.required_vos: Proof/C07Names.v Lib/Base.vos Model/Assertions.vos
